@@ -808,6 +808,204 @@ example : histSched TState.empty
 example : histSched TState.empty
     [Op.refresh [(0, [some 100])], Op.add 1 [(0, [some 60])], Op.add 2 [(0, [some 60])]] = false := by decide
 
+/-! ### allocateSet = the live pods (the duplicate gate is keyed on it) -/
+
+theorem hasPod_append (s : TState) (x : List (Nat × DevRes)) (q : Nat) :
+    hasPod { s with pods := s.pods ++ x } q = (hasPod s q || x.any (fun e => e.1 == q)) := by
+  simp [hasPod, List.any_append]
+
+/-- an add leaves the pod recorded, and changes the recorded set for no other pod -/
+theorem add_records (s : TState) (p : Nat) (al : List (Nat × RL)) (q : Nat) :
+    hasPod (addT s p al) q = (hasPod s q || decide (p = q)) := by
+  simp only [addT]
+  cases hp : hasPod s p with
+  | true =>
+    simp only [if_true]
+    by_cases h : p = q
+    · subst h; simp [hp]
+    · simp [h]
+  | false =>
+    simp only [Bool.false_eq_true, if_false]
+    show hasPod { (resetFree { s with used := usedAdd s.used al }) with
+      pods := (resetFree { s with used := usedAdd s.used al }).pods ++ [(p, recOf al)] } q = _
+    rw [hasPod_append]
+    by_cases h : p = q <;> simp [hasPod, resetFree, h]
+
+/-- a removal leaves the pod unrecorded, and changes the recorded set for no other pod -/
+theorem remove_forgets (s : TState) (p : Nat) (al : List (Nat × RL)) (q : Nat) :
+    hasPod (removeT s p al) q = (hasPod s q && !decide (p = q)) := by
+  simp only [removeT]
+  cases hp : hasPod s p with
+  | false =>
+    simp only [Bool.not_false, if_true]
+    by_cases h : p = q
+    · subst h; simp [hp]
+    · simp [h]
+  | true =>
+    simp only [Bool.not_true, Bool.false_eq_true, if_false]
+    show (List.filter (fun e => e.1 != p) s.pods).any (fun e => e.1 == q) = _
+    simp only [hasPod, List.any_filter]
+    by_cases h : p = q
+    · subst h
+      simp only [decide_true, Bool.not_true, Bool.and_false]
+      rw [List.any_eq_false]
+      intro e _
+      by_cases h2 : e.1 = p <;> simp [h2]
+    · simp only [h, decide_false, Bool.not_false, Bool.and_true]
+      congr 1
+      funext e
+      by_cases h2 : e.1 = q
+      · have : e.1 ≠ p := fun h3 => h (h3 ▸ h2)
+        simp [h2, this]
+        exact fun h3 => h (h3 ▸ rfl)
+      · simp [h2]
+
+/-- a refresh does not touch allocateSet and installs exactly the new inventory as total -/
+theorem refresh_total (s : TState) (nt : DevRes) (m k : Nat) :
+    (refreshT s nt).pods = s.pods ∧ drVal (refreshT s nt).total m k = drVal nt m k := by
+  refine ⟨rfl, ?_⟩
+  simp only [refreshT, resetFree_total_val]
+
+/-! ### the filtered view (nodeDevice.filter) -/
+
+theorem drGet_filter_key (d : DevRes) (f : Nat → Bool) (m : Nat) :
+    drGet (d.filter (fun p => f p.1)) m = if f m then drGet d m else none := by
+  induction d with
+  | nil => simp [drGet]
+  | cons p r ih =>
+    obtain ⟨k, w⟩ := p
+    simp only [List.filter_cons]
+    by_cases hk : k = m
+    · subst hk
+      cases hf : f k <;> simp [hf, drGet, ih]
+    · cases hf : f k
+      · simp only [Bool.false_eq_true, if_false, ih, drGet, hk]
+      · simp only [if_true, drGet, hk, if_false, ih]
+
+theorem drGet_none_of_not_mem (d : DevRes) (m : Nat) (h : m ∉ d.map (·.1)) : drGet d m = none := by
+  induction d with
+  | nil => rfl
+  | cons p r ih =>
+    obtain ⟨k, w⟩ := p
+    simp only [List.map_cons, List.mem_cons, not_or] at h
+    simp [drGet, Ne.symm h.1, ih h.2]
+
+/-- dropping all-zero entries of a map does not change any value -/
+theorem drVal_filter_nonzero (d : DevRes) (hn : KeysNodup d) (m k : Nat) :
+    drVal (d.filter (fun p => !rlIsZero p.2)) m k = drVal d m k := by
+  induction d with
+  | nil => rfl
+  | cons p r ih =>
+    obtain ⟨k0, v⟩ := p
+    simp only [KeysNodup, List.map_cons, List.nodup_cons] at hn
+    by_cases hk : k0 = m
+    · subst hk
+      have h1 : drGet r k0 = none := drGet_none_of_not_mem r k0 hn.1
+      have h2 : drGet (r.filter (fun p => !rlIsZero p.2)) k0 = none := by
+        apply drGet_none_of_not_mem
+        intro hmem
+        exact hn.1 ((List.Sublist.map _ List.filter_sublist).subset hmem)
+      cases hz : rlIsZero v
+      · simp [List.filter_cons, hz, drVal, drGetD, drGet]
+      · simp [List.filter_cons, hz, drVal, drGetD, drGet, h2, rlVal_nil, rlVal_of_isZero v k hz]
+    · have ih' := ih hn.2
+      cases hz : rlIsZero v
+      · simpa [List.filter_cons, hz, drVal, drGetD, drGet, hk] using ih'
+      · simpa [List.filter_cons, hz, drVal, drGetD, drGet, hk] using ih'
+
+/-- **view_free**: the free amount the allocator sees on a filtered view (device_cache.go filter): on a minor the
+    view admits, `min(total, e)` where `e` is the entry calcFreeWithPreemptible computed for it (free, or what is
+    left after the preemptible amounts are given back, capped by the reserved amounts); nothing on any other minor.
+    (`fd` non-zero: otherwise the type is dropped from the view altogether.) -/
+theorem view_free (s : TState) (ms : List Nat) (preempt required : DevRes)
+    (hnz : drIsZero (calcFree s preempt required) = false)
+    (hk : KeysNodup (calcFree s preempt required))
+    (he : ∀ m e, drGet (calcFree s preempt required) m = some e → ∀ k, 0 ≤ rlVal e k)
+    (ht : DRNonneg s.total) (m k : Nat) :
+    drVal (filterT s (some ms) preempt required).free m k =
+      match drGet (calcFree s preempt required) m with
+      | some e => if ms.contains m then min (drVal s.total m k) (rlVal e k) else 0
+      | none => 0 := by
+  simp only [filterT, hnz, Bool.false_eq_true, if_false]
+  generalize hfd : calcFree s preempt required = fd at *
+  -- the view before resetFree
+  let kept := fd.filter (fun p => ms.contains p.1)
+  let tot : DevRes := kept.map (fun p => (p.1, drGetD s.total p.1))
+  let usd0 : DevRes := kept.map (fun p => (p.1, rlSubNN (drGetD s.total p.1) p.2))
+  have hkept : drGet kept m = if ms.contains m then drGet fd m else none := drGet_filter_key fd (fun x => ms.contains x) m
+  have htot : drGet tot m = (drGet kept m).map (fun _ => drGetD s.total m) :=
+    drGet_mapVal kept (fun x _ => drGetD s.total x) m
+  have husd0 : drGet usd0 m = (drGet kept m).map (fun e => rlSubNN (drGetD s.total m) e) :=
+    drGet_mapVal kept (fun x e => rlSubNN (drGetD s.total x) e) m
+  have hkn : KeysNodup usd0 := by
+    have : usd0.map (·.1) = kept.map (·.1) := by simp [usd0, List.map_map, Function.comp_def]
+    show (usd0.map (·.1)).Nodup
+    rw [this]
+    exact List.Nodup.sublist (List.Sublist.map _ List.filter_sublist) hk
+  have hT : ∀ k, 0 ≤ drVal tot m k := by
+    intro k
+    simp only [drVal, drGetD, htot]
+    cases drGet kept m with
+    | none => simp [rlVal_nil]
+    | some e => simpa [drVal, drGetD] using ht m k
+  have hUval : ∀ k, drVal (usd0.filter (fun p => !rlIsZero p.2)) m k = drVal usd0 m k :=
+    fun k => drVal_filter_nonzero usd0 hkn m k
+  have hU : ∀ k, 0 ≤ drVal usd0 m k := by
+    intro k
+    simp only [drVal, drGetD, husd0]
+    cases drGet kept m with
+    | none => simp [rlVal_nil]
+    | some e => simpa using rlVal_subNN_nonneg _ _ k
+  show drVal (resetFree { total := tot, free := [], used := usd0.filter (fun p => !rlIsZero p.2), pods := [] }).free m k = _
+  rw [resetFree_free_val _ m k (hT k) (by rw [hUval]; exact hU k)]
+  show max 0 (drVal tot m k - drVal (usd0.filter (fun p => !rlIsZero p.2)) m k) = _
+  rw [hUval]
+  simp only [drVal, drGetD, htot, husd0, hkept]
+  cases hg : drGet fd m with
+  | none => simp [rlVal_nil]
+  | some e =>
+    cases hc : ms.contains m
+    · simp [rlVal_nil]
+    · have he' := he m e hg k
+      have htt := ht m k
+      simp only [drVal, drGetD] at htt
+      simp only [if_true, Option.map_some, Option.getD_some]
+      rw [rlVal_subNN _ _ _ he']
+      omega
+
+theorem qVal_min (x y : Q) (hx : 0 ≤ qVal x) (hy : 0 ≤ qVal y) : qVal (qMin x y) = min (qVal x) (qVal y) := by
+  cases x <;> cases y <;> simp [qMin, qVal] at * <;> (try split) <;> omega
+
+/-- util.MinResourceList value-wise (a key missing on either side counts as 0, and is dropped) -/
+theorem rlVal_min (a b : RL) (k : Nat) (ha : 0 ≤ rlVal a k) (hb : 0 ≤ rlVal b k) :
+    rlVal (rlMin a b) k = min (rlVal a k) (rlVal b k) := by
+  simp only [rlVal, rlMin, rlAt_zipPad qMin rfl]
+  exact qVal_min _ _ ha hb
+
+/-- calcFreeWithPreemptible without preemptible amounts and without reserved amounts is deviceFree itself -/
+theorem calcFree_plain (s : TState) : calcFree s [] [] = s.free := by
+  simp [calcFree]
+
+/-- … with reserved amounts `required` (allocation from a reservation): only the reserved minors, each capped by
+    the reserved amounts -/
+theorem calcFree_required (s : TState) (required : DevRes) (hr : required ≠ []) (m : Nat) :
+    drGet (calcFree s [] required) m =
+      if drHas required m then (drGet s.free m).map (fun f => rlMin f (drGetD required m)) else none := by
+  have h1 : required.isEmpty = false := by
+    cases required with
+    | nil => exact absurd rfl hr
+    | cons _ _ => rfl
+  simp only [calcFree, List.isEmpty_nil, if_true, h1, Bool.false_eq_true, if_false]
+  rw [drGet_mapVal (s.free.filter (fun p => drHas required p.1)) (fun x f => rlMin f (drGetD required x)) m,
+    drGet_filter_key s.free (fun x => drHas required x) m]
+  cases drHas required m <;> simp
+
+example :
+    let s := addT (refreshT TState.empty [(0, [some 100]), (1, [some 100])]) 1 [(0, [some 70])]
+    -- 70 of device 0 are preemptible, the reservation holds 50 of device 0: the view offers min(100, 50) there
+    drVal (filterT s (some [0, 1]) [(0, [some 70])] [(0, [some 50])]).free 0 0 = 50 ∧
+    drVal (filterT s (some [0, 1]) [] []).free 0 0 = 30 ∧ drVal (filterT s (some [1]) [] []).free 0 0 = 0 := by decide
+
 /-! ### the quirk behind `Covered` -/
 
 /-- a device that does not expose a requested resource at all still qualifies: `LessThanOrEqual` skips the key -/
